@@ -5,6 +5,7 @@ go 1.22.0
 toolchain go1.23.5
 
 require (
+	github.com/mattn/go-runewidth v0.0.16
 	github.com/trzsz/trzsz-go v0.0.0
 	golang.org/x/tools v0.29.0
 )
@@ -21,7 +22,6 @@ require (
 	github.com/klauspost/compress v1.17.9 // indirect
 	github.com/lucasb-eyer/go-colorful v1.2.0 // indirect
 	github.com/mattn/go-isatty v0.0.20 // indirect
-	github.com/mattn/go-runewidth v0.0.16 // indirect
 	github.com/muesli/termenv v0.15.2 // indirect
 	github.com/ncruces/zenity v0.10.13 // indirect
 	github.com/rivo/uniseg v0.4.7 // indirect
